@@ -190,3 +190,5 @@ META = {
     "outside_claim": ["the CLI's process-global string-type registry (mutated by --datetime / --disable-str-serializable-types; library calls use explicit registries)", "histories longer than 4 calls"],
     "assumptions": ["reference = the same call in a fresh /venv/bin/python process", "a failure inside code generation is an exception raised by the second class's generate()"],
 }
+if isinstance(META.get("bounds"), dict) and "quick" in META["bounds"]:
+    META["bounds"]["quick"] += '; 3 calls with an explicitly passed string-type registry per call (default / none / datetime) on a date-bearing input'
